@@ -9,7 +9,8 @@ INFO = {
              'route level) x scenario route (small / large / incompressible / binary / empty / streamed Response, rendered '
              'context, redirect, raised and returned 4xx/5xx, non-breaking error, uncaught exception, unknown URL, wrong '
              'method, POST with form data) x method (GET/HEAD/POST) x Accept-Encoding x query string / form body (absent, '
-             'well-formed, unconvertible, empty, repeated, undecodable values for the typed GET/POST extractors); every middleware alone x every '
+             'well-formed, unconvertible, empty, repeated, undecodable values for the typed GET/POST extractors) x request Cookie (absent, garbage, '
+             'malformed, foreign) x SCRIPT_NAME; every middleware alone x every '
              'scenario x every Accept-Encoding is enumerated completely, stacks are drawn by Hypothesis. Non-trivial = the '
              'response is not a plain 200 Response, or the body was actually compressed, or >=2 middlewares are stacked; '
              'distinct cases counted.'),
@@ -23,6 +24,8 @@ MWS = ['gzip', 'cache', 'stats', 'profile', 'cookie', 'ctxproc', 'simplectx', 'g
        'ctxproc-names', 'simplectx-names', 'getparam-typed', 'postdata-typed']
 # query strings / form bodies for the parameter extractors: absent, well-formed, unconvertible, empty, repeated, undecodable
 QUERIES = ['', 'zq_n=7&zq_f=2.5&zq_s=x', 'zq_n=abc', 'zq_n=&zq_f=1.5x', 'zq_n=x&zq_n=3', 'zq_unused=%ff&zq_s=%ff', 'zq_f=nan&zq_n=1.5']
+COOKIES = [None, 'clastic_cookie=garbage', 'clastic_cookie="eyJhIjoxfQ==?expires=x&k=v"', 'clastic_cookie=; other=1', 'clastic_cookie=\xff\xfe?a', 'a=b; clastic_cookie=x?y=z=w']
+SCRIPTS = ['', '/mnt', '/a b/\xc3\xa9']
 FORMS = [b'x=hello+world&y=2', b'x=1&zp_n=abc&zq_unused2=v', b'zp_n=&zp_f=--1', b'zp_n=12&zp_f=1e3&x=%ff']
 SCENARIOS = ['small', 'large', 'random', 'binary', 'empty', 'streamed', 'ctx', 'ctxfalsy', 'ctxlist', 'redirect', 'raise403', 'ret404', 'raise500',
              'ret503', 'nb403', 'boom', 'unknown', 'wrongmethod', 'form', 'status201', 'nocontent', 'preencoded', 'unicode']
@@ -128,6 +131,8 @@ def request_for(scenario, method, q=0):
         method = 'POST'
         body = FORMS[q % len(FORMS)]
         headers['Content-Type'] = 'application/x-www-form-urlencoded'
+    if q and COOKIES[q % len(COOKIES)] is not None:
+        headers['Cookie'] = COOKIES[q % len(COOKIES)]
     return path, method, body, headers
 
 
@@ -172,8 +177,9 @@ def body(case, ctx):
     query = QUERIES[q % len(QUERIES)]
     if enc is not None:
         headers['Accept-Encoding'] = enc
-    r0 = call(base, path, method, query=query, headers=dict(headers), body=reqbody)
-    r1 = call(app, path, method, query=query, headers=dict(headers), body=reqbody)
+    script = SCRIPTS[(q // 3) % len(SCRIPTS)] if q else ''
+    r0 = call(base, path, method, query=query, headers=dict(headers), body=reqbody, script_name=script)
+    r1 = call(app, path, method, query=query, headers=dict(headers), body=reqbody, script_name=script)
     ctx.requests += 2
     what = '%s %s%s Accept-Encoding=%r%s with %s at %s level' % (method, path, '?' + query if query else '', enc,
                                                                 ' form %r' % reqbody if reqbody else '', '+'.join(stack), level)
@@ -224,7 +230,7 @@ def body(case, ctx):
         if sent:
             ctx.mismatch('head-body', '%s: HEAD response carries %d body bytes' % (what, len(sent)), rc)
             return
-        g = call(app, path, 'GET', query=query, headers=dict(headers))
+        g = call(app, path, 'GET', query=query, headers=dict(headers), script_name=script)
         ctx.requests += 1
         if g.header('Content-Length') is not None and r1.header('Content-Length') is not None and \
                 g.header('Content-Length') != r1.header('Content-Length') and scenario != 'boom':
@@ -234,7 +240,7 @@ def body(case, ctx):
         # the gzip-accepting variant of the same URL: if that one is compressed, this one must carry Vary too
         h2 = dict(headers)
         h2['Accept-Encoding'] = 'gzip'
-        g = call(app, path, method, query=query, headers=h2, body=reqbody)
+        g = call(app, path, method, query=query, headers=h2, body=reqbody, script_name=script)
         ctx.requests += 1
         if (g.header('Content-Encoding') or '').lower() == 'gzip' and ce0 != 'gzip':
             vary = ','.join(r1.headers_all('Vary')).lower()
@@ -258,7 +264,7 @@ def strategy():
     from hypothesis import strategies as st
     return st.tuples(st.lists(st.sampled_from(MWS), min_size=1, max_size=4, unique=True), st.sampled_from(['app', 'app', 'route']),
                      st.sampled_from(SCENARIOS), st.sampled_from(['GET', 'GET', 'HEAD', 'POST']), st.sampled_from(ENCODINGS),
-                     st.one_of(st.just(0), st.integers(0, 27)))
+                     st.one_of(st.just(0), st.integers(0, 83)))
 
 
 def shards(tier, seed):
@@ -276,6 +282,9 @@ def run_shard(spec, ctx):
         # the parameter extractors: every query string / form body as well
         cases += [[[mw], level, sc, method, None, q] for mw in spec['mws'] if 'param' in mw or 'postdata' in mw
                   for level in ('app', 'route') for sc in SCENARIOS for method in ('GET', 'HEAD', 'POST') for q in range(1, 28)]
+        # the signed cookie and script root: every request cookie (garbage, malformed, foreign) / SCRIPT_NAME
+        cases += [[[mw], level, sc, method, None, q] for mw in spec['mws'] if mw in ('cookie', 'scriptroot')
+                  for level in ('app', 'route') for sc in SCENARIOS for method in ('GET', 'HEAD') for q in range(1, 19)]
         ctx.loop(cases, body, kind='case', max_sigs=12)
     else:
         ctx.hyp(strategy(), body, spec['n'], kind='case')
